@@ -3,8 +3,9 @@ import re
 from vlib import core, drivers
 
 PROP = 'C15'
-MODULES = ['PistacheModel.Props.C15']
-THEOREMS = ['Pistache.ClientPool.Props.' + t for t in ('run_inv', 'own_response', 'connection_limit', 'in_step', 'holders_run', 'settled_at_most_once', 'old_client_misattributes')]
+MODULES = ['PistacheModel.Props.C15', 'PistacheModel.Props.C15Wire']
+THEOREMS = ['Pistache.ClientPool.Props.' + t for t in ('run_inv', 'own_response', 'connection_limit', 'in_step', 'holders_run', 'settled_at_most_once', 'old_client_misattributes')] + \
+           ['Pistache.ClientPool.Wire.' + t for t in ('receive_segmentation_irrelevant', 'waits_for_last_read', 'own_response_on_the_wire')]
 
 def gen(tier, rnd):
     L = ['cl 1 2 1500 I,I,I,I,I,/,I,I,I,/,I,/,I,I,I,I', 'cl 1 1 1500 I,/,I,I,/,I', 'cl 2 3 1500 I,I,I,I,/,I,/,D200,I,I,I,I', 'cl 1 1 2500 D600:t300,I,I', 'cl 1 1 2500 D600:t300,D600:t300,I', 'cl 1 2 1500 N:t300,I,I', 'cl 1 1 2000 I,I,I,I', 'cl 2 3 3000 I,D500:t200,I,I,N:t300,K,B,I,I,I']
